@@ -262,8 +262,12 @@ class sequence_variables:
                 else:
                     half = count // 2
                     try:
-                        data['median-%s' %
-                             name] = (values[half] + values[half - 1]) // 2
+                        total = values[half] + values[half - 1]
+                        if isinstance(total, int):
+                            total = total // 2
+                        else:
+                            total = total / 2
+                        data['median-%s' % name] = total
                     except Exception:
                         try:
                             data['median-%s' %
